@@ -4,6 +4,9 @@ use ndarray::Data;
 use sprs::{CsMat, CsMatView};
 use std::ops::Mul;
 
+#[cfg(feature = "serde")]
+use serde_crate::{Deserialize, Serialize};
+
 /// Specifies the methods an inner matrix of a kernel must
 /// be able to provide
 pub trait Inner {
@@ -20,6 +23,11 @@ pub trait Inner {
 
 /// Allows a kernel to have either a dense or a sparse inner
 /// matrix in a way that is transparent to the user
+#[cfg_attr(
+    feature = "serde",
+    derive(Serialize, Deserialize),
+    serde(crate = "serde_crate")
+)]
 #[derive(Debug, Clone, PartialEq)]
 pub enum KernelInner<K1: Inner, K2: Inner> {
     Dense(K1),
